@@ -70,3 +70,6 @@ def run(check):
     from ..rules_visitor import rule_builtins_access
     check.run_rule('C07.R7b', lambda c: rule_builtins_access(c, 'C07.R7'))
     check.run_rule('C07.R5b', lambda c: rule_sphinx_unchanged_pair(c, 'C07.R5'))
+    from ..rules_escape import rule_user_value_operations, rule_sphinx_hook_total
+    check.run_rule('C07.R14', lambda c: rule_user_value_operations(c, 'C07.R14'))
+    check.run_rule('C07.R15', lambda c: rule_sphinx_hook_total(c, 'C07.R15'))
